@@ -309,7 +309,11 @@ func arityGrid(ev *vlib.Evidence, target, name string, svc rawCaller, types []re
 		probe(label, join(args), !optional)
 	}
 	if n > 0 {
+		// right after a request of this very method with a full set of well-typed parameters:
+		// nothing of it may be left over for the next request
+		probe("primer:well-typed-full-arity", join(validArgs), false)
 		probe("too-few:absent-params", "", true)
+		probe("primer:well-typed-full-arity", join(validArgs), false)
 		probe("too-few:null-params", "null", true)
 		probe("non-array:object", `{"a":1}`, true)
 		probe("non-array:string", `"abc"`, true)
